@@ -68,6 +68,8 @@ func (in c40In) String() string {
 		return fmt.Sprintf("w%d: merge-changes{%s}", in.World, strings.Join(p, "; "))
 	case "read":
 		return fmt.Sprintf("w%d: get-string f%d %s", in.World, in.Feat, in.Key)
+	case "copy":
+		return fmt.Sprintf("w%d: add-tag f%d %s=(get-string f%d %s)", in.World, in.Feat, in.Key, in.Feat, in.Val)
 	case "list":
 		return "ListWorlds"
 	case "delete":
@@ -125,6 +127,9 @@ func (in c40In) expression() string {
 		return "merge-changes {" + strings.Join(p, ", ") + "}"
 	case "read":
 		return fmt.Sprintf("get-string /%s %q", c40FeatureID(in.Feat), in.Key)
+	case "copy":
+		// a change computed from a read: key := current value of key Val
+		return fmt.Sprintf("add-tag /%s (tag %q (get-string /%s %q))", c40FeatureID(in.Feat), in.Key, c40FeatureID(in.Feat), in.Val)
 	}
 	panic("no expression for " + in.Kind)
 }
@@ -204,6 +209,9 @@ func c40ApplyChange(st *c40State, in c40In) bool {
 			return false
 		}
 		st.tags[in.World][fmt.Sprintf("f%d.%s", in.Feat, in.Key)] = "\x00"
+		return true
+	case "copy":
+		st.tags[in.World][fmt.Sprintf("f%d.%s", in.Feat, in.Key)] = c40Lookup(st, in.World, in.Feat, in.Val)
 		return true
 	case "merge":
 		for _, p := range in.Parts {
@@ -387,7 +395,14 @@ type c40Op struct {
 }
 
 func runC40(rc *RC) {
-	const name = "C40/service"
+	name := "C40/service"
+	readDependent := rc.Pct(20)
+	if readDependent {
+		// Changes whose value is computed from a read. See the known
+		// finding: evaluation happens under the read lock, application
+		// later under the write lock.
+		name = "C40/service(read-dependent changes)"
+	}
 	rc.Phase(name)
 	g := newCityGen(rc)
 	s, base, err := newC40Service(rc, g)
@@ -418,6 +433,10 @@ func runC40(rc *RC) {
 			switch rc.Pick(9, 5, 2, 2) {
 			case 0:
 				in = c40GenChange(rc, g, feats, keys, true)
+				if readDependent && rc.Pct(70) {
+					k1 := rc.Draw(len(keys))
+					in = c40In{Kind: "copy", Feat: feats[0], Key: keys[k1], Val: keys[1-k1]}
+				}
 			case 1:
 				in = c40In{Kind: "read", Feat: feats[rc.Draw(len(feats))], Key: keys[rc.Draw(len(keys))]}
 			case 2:
